@@ -33,7 +33,7 @@ def _run_chunk(args):
     out = []
     for c in cases:
         sql = R.render(c["prog"], R.Opts(alias_scope=c.get("alias_scope", "global"), isub_form=c.get("isub_form", "plain"),
-                                         merge_direct=c.get("merge_direct", False), sub_with=c.get("sub_with", False)))
+                                         merge_direct=c.get("merge_direct", False), sub_with=c.get("sub_with", False), where_op=c.get("where_op", "in")))
         for dia in dialects:
             if dia != "ansi" and not d.accepts(sql, dia):
                 out.append(None)
@@ -206,7 +206,12 @@ def run(chk):
     if quick:
         rnd_.shuffle(subw)
         subw = subw[:1500]
-    cases = cases + multi + nested + subw
+    # ... and the programs with a WHERE subquery once more with the subquery deeper in the condition
+    wops = [dict(c, where_op=rnd_.choice(["all", "nested_bool", "func", "in_with_bracket", "exists"])) for c in cases if any(e["e"] == "where" for e in c["prog"])]
+    if quick:
+        rnd_.shuffle(wops)
+        wops = wops[:1500]
+    cases = cases + multi + nested + subw + wops
     pool = mp.Pool(16)
     try:
         res = pool.map(_run_chunk, [(c, ["ansi"]) for c in chunks(cases, 64)])
